@@ -340,7 +340,7 @@ def run(ctx):
             continue
         r2, I2 = ctx.run(f2, expand=False, max_depth=2)
         for e in I2.events:
-            if not (e.kind == 'call' and e.data.get('name') == 'copy.deepcopy' and e.data['args'] and e.func.short == f2.short):
+            if not (e.kind == 'call' and e.data.get('name') == 'copy.deepcopy' and e.data['args'] and e.owner == f2.short):
                 continue
             arg = e.data['args'][0]
             if not _waterfall_value(arg):
